@@ -18,7 +18,8 @@ RealDouble::RealDouble(double i)
 hash_t RealDouble::__hash__() const
 {
     hash_t seed = SYMENGINE_REAL_DOUBLE;
-    hash_combine<double>(seed, i);
+    // -0.0 == 0.0 (see __eq__): equal objects must hash alike
+    hash_combine<double>(seed, i == 0.0 ? 0.0 : i);
     return seed;
 }
 
